@@ -310,7 +310,7 @@ func (c14Engine) Gen(g *Gen) {
 			fault = "output:" + in.Out
 		}
 		for _, a := range in.Arts {
-			if strings.HasPrefix(a.K, "unknown") || a.Fails || strings.HasPrefix(a.Name.String(), "/") || a.Name.String() == ".." {
+			if strings.HasPrefix(a.K, "unknown") || a.Fails || strings.HasPrefix(a.Name.String(), "/") || strings.HasPrefix(a.Name.String(), "..") || a.Name.String() == "." {
 				fault = "artifact"
 			}
 		}
@@ -328,7 +328,21 @@ func (c14Engine) Gen(g *Gen) {
 		ct.Tpl, ct.Fails = true, true
 		ta := mk("app", "a", "x")
 		ta.Tpl, ta.Fails = true, true
-		return append(bad, t, ct, ta)
+		bad = append(bad, t, ct, ta)
+		// an illegal name on every generator kind, plain and template (whose template renders fine)
+		for _, k := range []string{"file", "app", "inj"} {
+			for _, tpl := range []bool{false, true} {
+				for _, nm := range []string{"/abs", "../up", "."} {
+					if k == "file" && !tpl && nm != "." {
+						continue // already above
+					}
+					a := mk(k, nm, "x")
+					a.Tpl = tpl
+					bad = append(bad, a)
+				}
+			}
+		}
+		return bad
 	}()
 	for _, run := range baseRuns {
 		emit(c14In{Arts: run}) // fault-free control
